@@ -458,7 +458,7 @@ func cmdOverlay(args []string) int {
 			sort.Strings(keys)
 			for _, k := range keys {
 				total++
-				fmt.Printf("PATCH %s: %s: %s: %s\n", pf, id, strings.Replace(k, "|", ": ", 1), short(mf[k], 220))
+				fmt.Printf("PATCH %s: %s: %s: %s\n", pf, id, strings.Replace(k, "|", ": ", 1), short(mf[k], overlayMsgLen()))
 			}
 		}
 		fmt.Printf("PATCH %s: %d new failing obligation(s)\n", pf, total)
@@ -466,4 +466,12 @@ func cmdOverlay(args []string) int {
 		runtime.GC()
 	}
 	return 0
+}
+
+// overlayMsgLen: diagnostics of `overlay` are cut to 220 characters unless BUFSA_FULL is set.
+func overlayMsgLen() int {
+	if os.Getenv("BUFSA_FULL") != "" {
+		return 4000
+	}
+	return 220
 }
